@@ -115,6 +115,92 @@ theorem evaluate_final_represents (algo : String) (s : LoopSt) :
   rw [evaluate_final]
   exact represents_encRaw _ rfl
 
+/-! ### the whole rule loop, driven by the translated pieces -/
+
+/-- what the four `reason = …; continue` statements at the head of the loop body do to the Python variables -/
+def setReason (vars : List PyVal) (reason : String) : List PyVal :=
+  match vars with
+  | [l, d, o, _, ad, dr, ap, pr, po] => [l, d, o, .str reason, ad, dr, ap, pr, po]
+  | v => v
+
+def skipReason : Outcome → String
+  | .actionMismatch => "action_mismatch"
+  | .resourceMismatch => "resource_mismatch"
+  | .condFalse => "condition_mismatch"
+  | _ => "condition_type_mismatch"
+
+/-- `for rule in rules:` of `evaluate` on the nine Python variables: the head of the body (does the rule apply? — `ruleOutcome`, whose
+    `match_actions` / `match_resource` are themselves translated (C03 / C05 obligations) and whose `eval_condition` is hand-modelled)
+    chooses between `reason = …; continue` and the TRANSLATED tail `Src.evaluate_step`, whose last component says whether it broke -/
+def srcLoop (cx : CondCtx) (algo : String) : List PyVal → List PyVal → Except CondErr (List PyVal)
+  | vars, [] => .ok vars
+  | vars, rule :: rest =>
+    match ruleOutcome cx rule with
+    | .error e => .error e
+    | .ok (.applies effect _ _) =>
+      match vars with
+      | [l, d, o, r, ad, dr, ap, pr, po] =>
+        match Src.evaluate_step rule (por (Py.get rule "id") (.str "")) (.str algo) (.str effect) l d o r ad dr ap pr po with
+        | .list [l', d', o', r', ad', dr', ap', pr', po', broke] =>
+          if broke.truthy then .ok [l', d', o', r', ad', dr', ap', pr', po']
+          else srcLoop cx algo [l', d', o', r', ad', dr', ap', pr', po'] rest
+        | _ => .error (.raised "unexpected shape")
+      | _ => .error (.raised "unexpected shape")
+    | .ok out => srcLoop cx algo (setReason vars (skipReason out)) rest
+
+/-- the statements after the loop, on the nine variables -/
+def srcFinal (algo : String) : List PyVal → PyVal
+  | [l, d, o, r, ad, dr, ap, pr, po] => Src.evaluate_final (.str algo) ad dr ap pr po l d r o
+  | _ => .none
+
+theorem setReason_enc (s : LoopSt) (x : String) : setReason (encLoopSt s) x = encLoopSt { s with reason := x } := rfl
+
+/-- the loop over the Python variables, started from the encoding of a model state, ends in the encoding of the model's end state -/
+theorem srcLoop_eq (cx : CondCtx) (algo : String) (rules : List PyVal) (s : LoopSt) :
+    srcLoop cx algo (encLoopSt s) rules = (rulesLoop cx algo s rules).map encLoopSt := by
+  induction rules generalizing s with
+  | nil => rfl
+  | cons rule rest ih =>
+    unfold srcLoop rulesLoop
+    cases h : ruleOutcome cx rule with
+    | error e => rfl
+    | ok out =>
+      cases out with
+      | applies effect rid obls =>
+        simp only [encLoopSt]
+        have hs := evaluate_step_of_outcome cx rule algo effect rid obls s h
+        simp only [encLoopSt, List.cons_append, List.nil_append] at hs
+        rw [hs]
+        cases hb : (stepRule algo s (.applies effect rid obls)).2
+        · simp only [PyVal.truthy, Bool.false_eq_true, if_false]
+          exact ih _
+        · simp only [PyVal.truthy, if_true]
+          rfl
+      | actionMismatch => simpa [stepRule, skipReason, setReason_enc] using ih _
+      | resourceMismatch => simpa [stepRule, skipReason, setReason_enc] using ih _
+      | condFalse => simpa [stepRule, skipReason, setReason_enc] using ih _
+      | condTypeErr => simpa [stepRule, skipReason, setReason_enc] using ih _
+
+/-- **`policy.evaluate`, loop and finalisation, with the translated source in the places it covers, returns the model's result**:
+    from the literal initial values of the nine variables, the loop over `policy.get("rules") or []` followed by the statements after
+    the loop yields exactly the dict that encodes `Rbacx.evaluate` — for every policy, request and algorithm name. -/
+theorem evaluate_whole (cx : CondCtx) (dflt : String) (policy : PyVal) :
+    (do let algo ← lowerField (policy.get "algorithm") dflt
+        let vars ← srcLoop cx algo [.none, .str "deny", .list [], .str "no_match", .bool false, .none, .bool false, .none, .list []]
+                      (rulesOf policy)
+        pure (srcFinal algo vars)) = (evaluate cx dflt policy).map encRaw := by
+  unfold evaluate
+  cases lowerField (policy.get "algorithm") dflt with
+  | error e => rfl
+  | ok algo =>
+    have h := srcLoop_eq cx algo (rulesOf policy) {}
+    rw [encLoopSt_init] at h
+    simp only [bind, Except.bind, pure, Except.pure, Except.map] at *
+    rw [h]
+    cases rulesLoop cx algo {} (rulesOf policy) with
+    | error e => rfl
+    | ok s => simp only [Except.map, srcFinal, encLoopSt, evaluate_final]
+
 /-! ### `policyset.decide` -/
 
 /-- the loop-carried variables of `decide`, in the order of the fragment's result tuple -/
@@ -281,14 +367,103 @@ theorem decide_final (algo : String) (p : PySetSt) (s : SetSt) (hst : StRep p s)
         | (rw [hdeny.2]; exact deny_represents hdeny.1 _)
         | (rw [hpermit.2]; exact permit_represents hpermit.1 _)
 
+/-! ### the whole child loop of `decide`, driven by the translated pieces -/
+
+/-- `for pol in policies:` of `decide` on the nine Python variables, the children's ids and results (`pol.get("id")`,
+    `_decide_single(pol, env)`) being given: the TRANSLATED body `Src.decide_step`, whose last component says whether it broke -/
+def srcSetLoop (algo : String) : PySetSt → List (PyVal × PyVal) → PySetSt
+  | p, [] => p
+  | p, (pid, res) :: rest =>
+    match Src.decide_step res (.str algo) pid p.lastRuleId p.firstRes p.firstPid p.anyDeny p.denyRes p.denyPid p.anyPermit
+        p.permitRes p.permitPid with
+    | .list [a, b, c, d, e, f, g, h, i, broke] =>
+      if broke.truthy then ⟨a, b, c, d, e, f, g, h, i⟩ else srcSetLoop algo ⟨a, b, c, d, e, f, g, h, i⟩ rest
+    | _ => p
+
+/-- the model's child loop on results that are already there -/
+def setLoop (algo : String) : SetSt → List (PyVal × Raw) → SetSt
+  | s, [] => s
+  | s, (pid, r) :: rest =>
+    if (stepChild algo s pid r).2 then (stepChild algo s pid r).1 else setLoop algo (stepChild algo s pid r).1 rest
+
+/-- two lists related element by element -/
+inductive Rel2 {α β : Type} (R : α → β → Prop) : List α → List β → Prop
+  | nil : Rel2 R [] []
+  | cons {a b as bs} : R a b → Rel2 R as bs → Rel2 R (a :: as) (b :: bs)
+
+/-- simulation over the whole loop: child results that describe the model's child results, variables that hold a model state ⇒ the
+    variables after the loop hold the model's state after the loop -/
+theorem srcSetLoop_rep (algo : String) (pys : List (PyVal × PyVal)) (ms : List (PyVal × Raw))
+    (hres : Rel2 (fun x y => x.1 = y.1 ∧ Represents x.2 y.2) pys ms) (p : PySetSt) (s : SetSt) (hst : StRep p s) :
+    StRep (srcSetLoop algo p pys) (setLoop algo s ms) := by
+  induction hres generalizing p s with
+  | nil => exact hst
+  | @cons x y xs ys hxy _ ih =>
+    obtain ⟨pid, res⟩ := x
+    obtain ⟨pid', r⟩ := y
+    obtain ⟨hpid, hrep⟩ := hxy
+    simp only at hpid hrep
+    subst hpid
+    obtain ⟨p', hstep, hst'⟩ := decide_step algo pid res r p s hrep hst
+    unfold srcSetLoop setLoop
+    rw [hstep]
+    simp only [PySetSt.toList, List.cons_append, List.nil_append]
+    cases hb : (stepChild algo s pid r).2
+    · simp only [PyVal.truthy, Bool.false_eq_true, if_false]
+      exact ih _ _ hst'
+    · simp only [PyVal.truthy, if_true]
+      exact hst'
+
+/-- … and what `decide` then returns describes what the model returns: the whole of `policyset.decide` after `algo`/`policies` have
+    been read, with the translated source in the places it covers -/
+theorem decide_whole (algo : String) (pys : List (PyVal × PyVal)) (ms : List (PyVal × Raw))
+    (hres : Rel2 (fun x y => x.1 = y.1 ∧ Represents x.2 y.2) pys ms) :
+    let p := srcSetLoop algo ⟨.none, .none, .none, .bool false, .none, .none, .bool false, .none, .none⟩ pys
+    Represents (Src.decide_final (.str algo) p.firstRes p.firstPid p.lastRuleId p.anyDeny p.denyRes p.denyPid p.anyPermit
+      p.permitRes p.permitPid) (finaliseSet algo (setLoop algo {} ms)) :=
+  decide_final algo _ _ (srcSetLoop_rep algo pys ms hres _ _ stRep_init)
+
+/-- the model's recursive child loop is `setLoop` on the children's results (when every child evaluates) -/
+theorem childrenLoop_eq_setLoop (cx : CondCtx) (interpDflt setDflt algo : String) (children : List PTree) (rs : List Raw)
+    (h : children.mapM (decideTree cx interpDflt setDflt) = .ok rs) (s : SetSt) :
+    childrenLoop cx interpDflt setDflt algo s children =
+      .ok (setLoop algo s ((children.map fun c => c.doc.get "id").zip rs)) := by
+  induction children generalizing rs s with
+  | nil =>
+    simp only [List.mapM_nil, pure, Except.pure] at h
+    cases h
+    simp [childrenLoop, setLoop]
+  | cons c cs ih =>
+    rw [List.mapM_cons] at h
+    cases hc : decideTree cx interpDflt setDflt c with
+    | error e => simp [hc, bind, Except.bind] at h
+    | ok r =>
+      cases hcs : cs.mapM (decideTree cx interpDflt setDflt) with
+      | error e => simp [hc, hcs, bind, Except.bind] at h
+      | ok rs' =>
+        simp only [hc, hcs, bind, Except.bind, pure, Except.pure] at h
+        cases h
+        rw [childrenLoop, hc]
+        simp only [List.map_cons, List.zip_cons_cons, setLoop]
+        generalize stepChild algo s (c.doc.get "id") r = st
+        obtain ⟨s', b⟩ := st
+        cases b
+        · simpa using ih rs' hcs s'
+        · simp
+
 end Rbacx.Translated
 
 #print axioms Rbacx.Translated.evaluate_step
 #print axioms Rbacx.Translated.evaluate_step_of_outcome
 #print axioms Rbacx.Translated.evaluate_final
 #print axioms Rbacx.Translated.evaluate_final_represents
+#print axioms Rbacx.Translated.srcLoop_eq
+#print axioms Rbacx.Translated.evaluate_whole
 #print axioms Rbacx.Translated.decide_step
 #print axioms Rbacx.Translated.decide_final
+#print axioms Rbacx.Translated.srcSetLoop_rep
+#print axioms Rbacx.Translated.decide_whole
+#print axioms Rbacx.Translated.childrenLoop_eq_setLoop
 #print axioms Rbacx.Translated.stRep_init
 #print axioms Rbacx.Translated.encLoopSt_init
 #print axioms Rbacx.Translated.copy_of_set_result
